@@ -1,6 +1,6 @@
 """C06 - truthiness and short-circuit logic follow the documented table.
 
-Finite space, enumerated completely: 25 representative values in every
+Finite space, enumerated completely: 40 representative values in every
 truthiness position (!v, if, while, filter pattern, && and || against every
 right operand with an evaluation probe)."""
 import os
@@ -15,7 +15,10 @@ import math
 # (source text, model value)
 REPS = [
     ("false", False), ("true", True), ("0", 0), ("1", 1), ("(-1)", -1),
-    ("0.0", 0.0), ("(-0.0)", -0.0), ("(1e999 - 1e999)", math.nan), ("1.5", 1.5),
+    ("0.0", 0.0), ("(-0.0)", -0.0), ("(1e999 - 1e999)", math.nan), ("1.5", 1.5), ("5.0e-324", 5e-324), ("(-1.0e-20)", -1e-20),
+    ("1e999", math.inf), ("(1.0 - 0.9999999999999999)", 1.0 - 0.9999999999999999), ("9223372036854775807", (1 << 63) - 1),
+    ("(-9223372036854775807 - 1)", -(1 << 63)), ("char(1)", Char(1)), ("byte(255)", Byte(255)), ('" "', " "), ("[[]]", Arr([Arr([])])),
+    ("[null]", Arr([None])), ("map {null: null}", Map([(None, None)])), ("false || 0", 0),
     ("null", None), ("char(0)", Char(0)), ("'a'", Char("a")), ("byte(0)", Byte(0)), ("b'a'", Byte(97)),
     ('""', ""), ('"a"', "a"), ('"é"', "é"), ("[]", Arr([])), ("[0]", Arr([0])),
     ("map {}", Map([])), ("map {0: 0}", Map([(0, 0)])), ("fn() { 0 }", Closure()), ("len", Builtin("len")),
@@ -30,11 +33,11 @@ def one_packet_pcap():
 
 
 def run(chk):
-    chk.rule = ("25 representative values (every kind, falsey and truthy member) x positions {!v, if v, while v, filter "
-                "pattern, v && w, v || w for all 25 w}; distinct = distinct (position, kind of v, falsey?, kind of w)")
+    chk.rule = ("40 representative values (every kind, falsey and truthy member) x positions {!v, if v, while v, filter "
+                "pattern, v && w, v || w for all 40 w}; distinct = distinct (position, kind of v, falsey?, kind of w)")
     chk.exhaustive = True
     chk.floor = 1000
-    chk.assumptions = ["the 25 representatives stand for their kinds (one falsey and one truthy member per kind where both exist)"]
+    chk.assumptions = ["the 40 representatives stand for their kinds (one falsey and one truthy member per kind where both exist)"]
     PRE = "let __t = []; fn r(x) { push(__t, 1); x }\nlet __o = [];\n"
     cases = []
     meta = {}
